@@ -179,3 +179,25 @@ def next_zero_crossing(startTime, samples, frameRate, reverse):
         if z is None:
             return None
     return startTime + z / float(frameRate)
+
+
+# ---- C01 / C03 / C04: the dictionary stages of saving and of the plain json format -------------------------------
+
+
+def json_down_up(tgAsDict):
+    """the plain json format keeps names, order, types and entries; by design one span for the whole textgrid"""
+    return {"xmin": tgAsDict["xmin"], "xmax": tgAsDict["xmax"],
+            "tiers": [{"class": t["class"], "name": t["name"], "xmin": tgAsDict["xmin"], "xmax": tgAsDict["xmax"],
+                       "entries": t["entries"]} for t in tgAsDict["tiers"]]}
+
+
+def prepTgForSaving_verbatim(tg, includeBlankSpaces, minTimestamp, maxTimestamp, minimumIntervalLength):
+    """blank filling off (or only point tiers): entries are written verbatim, in time order; a span override becomes
+    the file's span; tier names, classes and spans are untouched"""
+    for t in tg["tiers"]:
+        t["entries"] = sorted(t["entries"])
+    if minTimestamp is not None:
+        tg["xmin"] = minTimestamp
+    if maxTimestamp is not None:
+        tg["xmax"] = maxTimestamp
+    return tg
